@@ -248,6 +248,12 @@ func VH_C11_Estimate() {
 	tx := vfundedTx(nIn, nOut, 2)
 	fq := vquote()
 	bad := vnondetLen("bad", 0, 3)
+	if bad == 0 && vnondetBool("empty-unlock") {
+		// what decoding or cloning an unsigned transaction leaves behind: empty, non-nil unlocking scripts
+		for _, in := range tx.Inputs {
+			in.UnlockingScript = &bscript.Script{}
+		}
+	}
 	k := vnondetLen("which", 0, nIn-1)
 	switch bad {
 	case 1:
